@@ -848,9 +848,10 @@ func (t *ZeroAllocTokenizer) tokenizeTemplatePath(path string) {
 	path = strings.TrimSpace(path)
 
 	// If it's a quoted string
-	// (a lone quote character is both prefix and suffix: it is not a quoted string)
+	// (a lone quote character is both prefix and suffix: it is not a quoted string,
+	// and neither is an expression that merely starts and ends with a string: 'a' ~ 'b')
 	if len(path) >= 2 && ((strings.HasPrefix(path, "\"") && strings.HasSuffix(path, "\"")) ||
-		(strings.HasPrefix(path, "'") && strings.HasSuffix(path, "'"))) {
+		(strings.HasPrefix(path, "'") && strings.HasSuffix(path, "'"))) && isSingleStringLiteral(path) {
 		// Extract content without quotes
 		content := path[1 : len(path)-1]
 		t.AddToken(TOKEN_STRING, content, t.line)
@@ -858,6 +859,22 @@ func (t *ZeroAllocTokenizer) tokenizeTemplatePath(path string) {
 		// Otherwise tokenize as expression
 		t.TokenizeExpression(path)
 	}
+}
+
+// isSingleStringLiteral reports whether a text that starts and ends with the same quote
+// is one string literal: its delimiter does not occur unescaped in between
+func isSingleStringLiteral(s string) bool {
+	delim := s[0]
+	for i := 1; i < len(s)-1; i++ {
+		if s[i] == '\\' {
+			i++
+			continue
+		}
+		if s[i] == delim {
+			return false
+		}
+	}
+	return true
 }
 
 // isCharAlpha checks if a byte is an alphabetic character
